@@ -53,7 +53,11 @@ RECURSIVE SessTold(_, _, _, _)
 SessTold(tl, o, ss, rec) ==
   IF ss = <<>> THEN tl
   ELSE SessTold(IF SessUser[Head(ss)] = o THEN FramesTold(tl, o, rec.frames[Head(ss)]) ELSE tl, o, Tail(ss), rec)
-ToldAfter(tl, rec) == [o \in Users |-> SessTold(tl[o], o, SessOrder, rec)]
+\* a contact the observer holds no live subscription to is forgotten (a client drops the contact with the subscription)
+LiveContact(rec, o, c) == IF c \in Groups THEN rec.subs[c][o].st = "live"
+                          ELSE HasP2P(o, c) /\ rec.subs[P2POf(o, c)][o].st = "live"
+Norm(tl, rec) == [o \in Users |-> [c \in Contacts |-> IF LiveContact(rec, o, c) THEN tl[o][c] ELSE "off"]]
+ToldAfter(tl, rec) == Norm([o \in Users |-> SessTold(tl[o], o, SessOrder, rec)], rec)
 
 \* ------------------------------------------------------------------ clause (2): never leaks
 \* the topic a notification is about, as the recipient r sees it ("" = the recipient's own account / not a subscription topic)
@@ -115,7 +119,7 @@ ConvTags(rec, tl) ==
 \* ------------------------------------------------------------------ binding: Presence.tla from the real pre-state
 TopOf(rec, tn, x) ==
   IF ~rec.loaded[tn] THEN OffTop
-  ELSE [ph |-> "live", ann |-> rec.ann[tn], att |-> AttSess(rec, tn), pend |-> {}, cnt |-> [u \in Users |-> rec.online[tn][u]]]
+  ELSE [ph |-> "live", ann |-> rec.ann[tn], supd |-> rec.supd[tn], att |-> AttSess(rec, tn), pend |-> {}, cnt |-> [u \in Users |-> rec.online[tn][u]]]
 PsOf(rec, u) ==
   [c \in Contacts |-> IF rec.me[u].loaded /\ c \in DOMAIN rec.me[u].ps THEN [l |-> TRUE, on |-> rec.me[u].ps[c].on, en |-> rec.me[u].ps[c].en]
                       ELSE NoEntry]
@@ -159,7 +163,7 @@ Diverge(pre, rec, tlPre, tlPost) ==
           \cup (IF r.st.ps # post.ps THEN {"perSubs"} ELSE {})
           \cup (IF \E u \in Users : r.st.top[u] # post.top[u] THEN {"me"} ELSE {})
           \cup (IF \E g \in Groups : r.st.top[g] # post.top[g] THEN {"grp"} ELSE {})
-          \cup (IF r.st.told # post.told THEN {"told"} ELSE {})
+          \cup (IF Norm(r.st.told, rec) # post.told THEN {"told"} ELSE {})
           \cup (IF r.st.bg # post.bg THEN {"bg"} ELSE {})
 
 \* ------------------------------------------------------------------ walk
